@@ -1462,6 +1462,12 @@ pub mod fs {
                 if fs.any_data && id <= fs.max_data_id {
                     c14(4);
                 }
+                // ids are handed out by looking at data files only, and recovery prefers a hint
+                // file over the data file of the same id: a data file must be the FIRST file of
+                // its id (its hint file follows it), i.e. also above every hint id ever present
+                if fs.any_hint && id <= fs.max_hint_id {
+                    c14(4);
+                }
                 if !fs.any_data || id > fs.max_data_id {
                     fs.max_data_id = id;
                 }
